@@ -59,8 +59,9 @@ func (c17) Gen(r *rand.Rand, tier string, run int) *core.Case {
 				// connection is shutting down - waits until the handler registered right after it
 				// has been closed (an application that collects its notifications in an order of its own),
 				// 8 a handler that gives itself up on a message it does not take (its filter answers
-				// "not for me, and forget me")
-				op = core.Op{Kind: "make", X: int64(r.IntN(9)), Y: int64(r.IntN(6))}
+				// "not for me, and forget me"), 9 one-shot, whose close callback uses the end point
+				// (it registers the handler that takes over)
+				op = core.Op{Kind: "make", X: int64(r.IntN(10)), Y: int64(r.IntN(6))}
 			case k < 6:
 				op = core.Op{Kind: "remove", X: int64(r.IntN(4)), Y: int64(r.IntN(14))} // X: 0,1 own live; 2 stale/any known; 3 random id Y
 			default:
@@ -328,7 +329,7 @@ func c17make2(env *core.Env, st *c17state, a, kind, lazy int, onClosed, waitFor 
 				return false, false
 			}
 			return hdr.Action%2 == 0, true
-		case 1, 3:
+		case 1, 3, 9:
 			if hdr.Action%3 == 0 {
 				// self-removal: from now on the handler is on its way out
 				seq := zzsim.Seq()
@@ -351,6 +352,12 @@ func c17make2(env *core.Env, st *c17state, a, kind, lazy int, onClosed, waitFor 
 		st.mu.Unlock()
 		if first {
 			close(released)
+		}
+		if first && kind == 9 {
+			// the application's callback registers a successor (nobody
+			// judges it: it is there to use the end point from a callback)
+			c17make2(env, st, 97, 2, 0, nil, nil)
+			env.Probe("close-callbacks-that-use-the-end-point")
 		}
 		if first && waitFor != nil {
 			st.mu.Lock()
@@ -465,7 +472,7 @@ func (c17) Check(c *core.Case, env *core.Env, res zzsim.Result, v *core.Verdict)
 				e = s
 			}
 		}
-		if r.kind == 1 || r.kind == 3 || r.kind == 8 {
+		if r.kind == 1 || r.kind == 3 || r.kind == 8 || r.kind == 9 {
 			// a one-shot handler may leave as soon as a matching frame was written
 			for _, fs := range st.frameSeqs {
 				if fs > r.makeCall && fs < e {
@@ -565,7 +572,7 @@ func (c17) Check(c *core.Case, env *core.Env, res zzsim.Result, v *core.Verdict)
 					e = s
 				}
 			}
-			if r.kind == 1 || r.kind == 3 || r.kind == 8 {
+			if r.kind == 1 || r.kind == 3 || r.kind == 8 || r.kind == 9 {
 				for _, fs := range st.frameSeqs {
 					if fs > r.makeCall && fs < e {
 						e = fs
